@@ -217,7 +217,7 @@ for D in (1, 2, 3):
           lemmas=prod_lemmas(na, fa) + prod_lemmas(xs, ['0']*D),
           ensures=canonical_ens('self', D, xs, ['0']*D, lambda k: '%s == 0' % prod(xs[k:]), guard='EXC == 0', what='the reshaped array') + [
                    ('the storage is kept as it is: same base, no allocation, no release (so the flat element sequence is preserved)', 'EXC == 0 && self->base_ == OLD(self->base_) && g_news == 0 && g_deletes == 0')],
-          covers=['g_n0 > 1 && x0 != g_n0', '%s == 0' % Na], assigns=['*self'], objbits=12, timeout=900, unwind=4, cbmc_flags=['--no-pointer-check'], solvers=('cvc5', 'cadical'))
+          covers=['g_n0 > 1 && x0 != g_n0' if D > 1 else 'g_n0 > 1', '%s == 0' % Na], assigns=['*self'], objbits=12, timeout=900, unwind=4, cbmc_flags=['--no-pointer-check'], solvers=('cvc5', 'cadical'))
     Check('O%d_clear' % D, ['C06'], 'own', fn='w_O%d_clear' % D, params=['self'],
           wrapper=('void', 'AR<%d>* self' % D, 'self->clear();'),
           cxx={'self': ARR(D)}, ghosts=ghosts_fn(D), stubs=[NEW, DEL], mode='uf',
